@@ -383,8 +383,9 @@ def _job(args):
         return ("broken", str(e), 0)
 
 
-INV_CLAUSES = ("succeeds iff", "accepts exactly", "accepts a strictly", "refuses a null", "valid", "move", "never refused",
-               "needs >= p+1 knots", "assignment from a support", "leaves both operands", "is refused with")
+INV_CLAUSES = ("succeeds iff", "accepts exactly", "accepts a strictly", "refuses a null", "valid", "move construction",
+               "move assignment", "move-assignment", "never refused", "needs >= p+1 knots", "assignment from a support",
+               "leaves both operands", "is refused with")
 VAL_CLAUSES = ("unchanged", "identical state", "does not depend on earlier", "whether or not", "one object as both operands",
                "referring to one of a's own coefficients", "leaves both operands", "equals its copy", "is refused with")
 
@@ -421,7 +422,8 @@ PRED_CLAUSES = ("<=>", "equality", "!= is the negation", "a grid is never empty"
 GRID_CLAUSES = ("hasSameGrid", "differing grids", "DIFFERING_GRIDS", "grid equality", "!= is the negation",
                 "logically", "is refused with", "equality <=>", "scalar values are compared")
 # C13 (validity suite part): what happens to a support's grid and window under copy / move / assignment
-WINDOW_CLAUSES = ("support", "Support", "window")
+WINDOW_CLAUSES = ("move construction transfers the window", "move assignment transfers the window",
+                  "assignment from a support", "self move-assignment leaves a valid support")
 
 
 def inv_view(stats):
